@@ -332,6 +332,13 @@ The model will accept the following patterns in method parameters:
 
 ";
 
+pub static FLAT_PARAMETER_NAME_NOTE: &'static str ="
+Within the model every method parameter is carried under one identifier. 
+A pattern gets the names of its variables joined by '_' : '(a, b) : (Type, Type)' becomes 'a_b', 
+a pattern without variables '(..)' becomes '__'. 
+This identifier is already taken by another parameter of the method or by the model itself.
+Consider renaming the variables of the pattern.";
+
 pub static INTER_VARIABLE_SUPPORTED_PATTERN_NOTE: &'static str ="
 The ONLY pattern supported for `inter variable` is 'ident' (a variable name 'foo : Type')!";
 
